@@ -352,6 +352,8 @@ class MultiAgentProblem(  # type: ignore[misc]
                 self._update_problem_kind_action(action)
         for goal in self._goals:
             self._update_problem_kind_condition(goal)
+        for obj in self.all_objects:
+            self._update_problem_kind_type(obj.type)
         return self._kind
 
     def _update_problem_kind_effect(self, e: "up.model.effect.Effect"):
